@@ -136,8 +136,16 @@ class FiltersSet:
         :return: the string between quotes
         """
         if not value.startswith(('"', "'")):
-            return '"%s"' % value
+            return self.__quote(value)
         return value
+
+    def __quote(self, value: str) -> str:
+        """Return value as a quoted string, special characters escaped."""
+        return '"%s"' % str(value).replace("\\", "\\\\").replace('"', '\\"')
+
+    def __quote_list(self, values) -> str:
+        """Return values as a string list."""
+        return "[%s]" % ",".join(self.__quote(val) for val in values)
 
     def __build_condition(
         self, condition: List[str], parent: commands.Command, tag: Optional[str] = None
@@ -215,7 +223,7 @@ class FiltersSet:
             elif cname == "exists":
                 cmd = commands.get_command_instance("exists", ifcontrol)
                 cmd.check_next_arg(
-                    "stringlist", "[%s]" % (",".join('"%s"' % val for val in c[1:]))
+                    "stringlist", self.__quote_list(c[1:])
                 )
             elif cname == "envelope":
                 cmd = commands.get_command_instance("envelope", ifcontrol, False)
@@ -226,14 +234,8 @@ class FiltersSet:
                 else:
                     comp_tag = c[1]
                 cmd.check_next_arg("tag", comp_tag)
-                cmd.check_next_arg(
-                    "stringlist",
-                    "[{}]".format(",".join('"{}"'.format(val) for val in c[2])),
-                )
-                cmd.check_next_arg(
-                    "stringlist",
-                    "[{}]".format(",".join('"{}"'.format(val) for val in c[3])),
-                )
+                cmd.check_next_arg("stringlist", self.__quote_list(c[2]))
+                cmd.check_next_arg("stringlist", self.__quote_list(c[3]))
             elif cname == "address":
                 cmd = commands.get_command_instance("address", ifcontrol, False)
                 if c[1].startswith(":not"):
@@ -246,9 +248,7 @@ class FiltersSet:
                     if isinstance(arg, str):
                         finalarg = self.__quote_if_necessary(arg)
                     else:
-                        finalarg = "[{}]".format(
-                            ",".join('"{}"'.format(val) for val in arg)
-                        )
+                        finalarg = self.__quote_list(arg)
                     cmd.check_next_arg("stringlist", finalarg)
 
             elif cname == "body":
@@ -261,9 +261,7 @@ class FiltersSet:
                 else:
                     comp_tag = c[2]
                 cmd.check_next_arg("tag", comp_tag)
-                cmd.check_next_arg(
-                    "stringlist", "[%s]" % (",".join('"%s"' % val for val in c[3:]))
-                )
+                cmd.check_next_arg("stringlist", self.__quote_list(c[3:]))
             elif cname == "currentdate":
                 cmd = commands.get_command_instance("currentdate", ifcontrol, False)
                 self.require(cmd.extension)
@@ -285,8 +283,7 @@ class FiltersSet:
                 cmd.check_next_arg("string", self.__quote_if_necessary(c[next_arg_pos]))
                 next_arg_pos += 1
                 cmd.check_next_arg(
-                    "stringlist",
-                    "[%s]" % (",".join('"%s"' % val for val in c[next_arg_pos:])),
+                    "stringlist", self.__quote_list(c[next_arg_pos:])
                 )
             else:
                 # header command fallback
